@@ -29,3 +29,5 @@ pub assume_specification [f64::max] (x: f64, y: f64) -> (r: f64) ensures r == s_
 #[verifier::external_body] pub fn vneg(x: f64) -> (r: f64) ensures r == s_neg(x) { -x }
 #[verifier::external_body] pub fn to_f(x: usize) -> (r: f64) ensures r == s_of_usize(x) { x as f64 }
 pub uninterp spec fn vac(k: int) -> bool;   // vacuity probes: `if vac(k) { assert(false) }` must FAIL in every run
+pub uninterp spec fn s_powi(x: f64, n: i32) -> f64;
+pub assume_specification [f64::powi] (x: f64, n: i32) -> (r: f64) ensures r == s_powi(x, n);
